@@ -253,6 +253,9 @@ class Walker:
                 v_ = self.sym(kw.value, st)
                 if kw.arg is None and v_[0] == 'kwdict':
                     kwl.extend(v_[1])
+                elif kw.arg is None and v_[0] == 'dict' and all(is_const(k) and isinstance(k[1], str) for k, _ in v_[1]):
+                    # f(**{'a': x, 'b': y}) is f(a=x, b=y)
+                    kwl.extend((k[1], val) for k, val in v_[1])
                 else:
                     kwl.append((kw.arg, v_))
             kwargs = tuple(kwl)
@@ -617,6 +620,11 @@ class Walker:
         fn, cenv = self.fn_of_value(target)
         if fn is None:
             return None
+        return self.eval_fn(fn, args, kwargs, st, cenv)
+
+    def eval_fn(self, fn, args, kwargs, st, cenv=None):
+        """Value of calling the function `fn` (a node: lambda, closure, module-level function, method with self as first
+        argument) when all its paths are effect-free; None when it cannot be evaluated in place."""
         depth = self.__dict__.setdefault('_eval_depth', [0])
         name = getattr(fn, 'name', '<lambda>')
         if depth[0] >= 8 or (name != '<lambda>' and self._inline_stack.count(name) >= 2):
